@@ -1,0 +1,70 @@
+//go:build verif
+
+// Contracts for govc (see /verif/DESIGN.md). Comment-only file.
+
+package str
+
+//@ property C38
+
+//@ spec eqLowerUpTo(a string, b string, n int) bool = forall k :: 0 <= k && k < n ==> asciiLower(a[k]) == asciiLower(b[k])
+
+// CmpLower(a,b) = lexicographic comparison of the lower-cased strings.
+// d is the first index where they differ (when the result is decided inside the loop).
+//@ func CmpLower(s1, s2) (r)
+//@   ghost d int = i
+//@   ensures! range: r == -1 || r == 0 || r == 1
+//@   ensures! eq: r == 0 <==> len(s1) == len(s2) && eqLowerUpTo(s1, s2, len(s1))
+//@   ensures! lt: r == -1 ==> (0 <= d && d < len(s1) && d < len(s2) && eqLowerUpTo(s1, s2, d) && asciiLower(s1[d]) < asciiLower(s2[d])) || (len(s1) < len(s2) && eqLowerUpTo(s1, s2, len(s1)))
+//@   ensures! gt: r == 1 ==> (0 <= d && d < len(s1) && d < len(s2) && eqLowerUpTo(s1, s2, d) && asciiLower(s1[d]) > asciiLower(s2[d])) || (len(s1) > len(s2) && eqLowerUpTo(s1, s2, len(s2)))
+//@   loop 0 invariant 0 <= i && i < len(s1) && i < len(s2) && eqLowerUpTo(s1, s2, i)
+//@   loop 0 decreases len(s1) - i
+
+//@ func EqualCI(x, y) (r)
+//@   ensures! def: r <==> len(x) == len(y) && eqLowerUpTo(x, y, len(x))
+//@   loop 0 invariant 0 <= i && i < len(x) && len(x) == len(y) && eqLowerUpTo(x, y, i)
+//@   loop 0 decreases len(x) - i
+
+//@ func ToLower(s) (r)
+//@   ensures! len: len(r) == len(s)
+//@   ensures! def: forall k :: 0 <= k && k < len(s) ==> r[k] == asciiLower(s[k])
+//@   loop 0 invariant 0 <= i && i < len(s) && forall k :: 0 <= k && k < i ==> !asciiIsUpper(s[k])
+//@   loop 0 decreases len(s) - i
+//@   loop 1 invariant i + 1 <= j && j <= len(s) && len(lower) == len(s)
+//@   loop 1 invariant forall k :: 0 <= k && k < j ==> lower[k] == asciiLower(s[k])
+//@   loop 1 decreases len(s) - j
+
+//@ func ToUpper(s) (r)
+//@   ensures! len: len(r) == len(s)
+//@   ensures! def: forall k :: 0 <= k && k < len(s) ==> r[k] == asciiUpper(s[k])
+//@   loop 0 invariant 0 <= i && i < len(s) && forall k :: 0 <= k && k < i ==> !asciiIsLower(s[k])
+//@   loop 0 decreases len(s) - i
+//@   loop 1 invariant i + 1 <= j && j <= len(s) && len(upper) == len(s)
+//@   loop 1 invariant forall k :: 0 <= k && k < j ==> upper[k] == asciiUpper(s[k])
+//@   loop 1 decreases len(s) - j
+
+//@ func CommonPrefixLen(s, t) (r)
+//@   ensures! range: 0 <= r && r <= len(s) && r <= len(t)
+//@   ensures! common: forall k :: 0 <= k && k < r ==> s[k] == t[k]
+//@   ensures! maximal: r == len(s) || r == len(t) || s[r] != t[r]
+//@   loop 0 invariant 0 <= i && i <= len(s) && i <= len(t) && forall k :: 0 <= k && k < i ==> s[k] == t[k]
+//@   loop 0 decreases len(s) - i
+
+//@ func CommonPrefix(s, t) (r)
+//@   ensures! range: len(r) <= len(s) && len(r) <= len(t)
+//@   ensures! prefix: forall k :: 0 <= k && k < len(r) ==> r[k] == s[k] && r[k] == t[k]
+//@   ensures! maximal: len(r) == len(s) || len(r) == len(t) || s[len(r)] != t[len(r)]
+//@   loop 0 invariant 0 <= i && i <= len(s) && i <= len(t) && forall k :: 0 <= k && k < i ==> s[k] == t[k]
+//@   loop 0 decreases len(s) - i
+
+//@ func Subi(s, i, j) (r)
+//@   requires 0 <= i && i <= j
+//@   ensures! def: len(r) == max(0, min(j, len(s)) - i) && forall k :: 0 <= k && k < len(r) ==> r[k] == s[i + k]
+
+//@ func Subn(s, i, n) (r)
+//@   requires 0 <= i && 0 <= n && i + n <= 9223372036854775807
+//@   ensures! def: len(r) == max(0, min(i + n, len(s)) - i) && forall k :: 0 <= k && k < len(r) ==> r[k] == s[i + k]
+
+//@ func Cut(s, sep) (before, after)
+//@   ghost p int = i
+//@   ensures! notfound: (forall k :: 0 <= k && k < len(s) ==> s[k] != sep) ==> before == s && len(after) == 0
+//@   ensures! found: (exists k :: 0 <= k && k < len(s) && s[k] == sep) ==> 0 <= p && p < len(s) && s[p] == sep && (forall k :: 0 <= k && k < p ==> s[k] != sep) && len(before) == p && len(after) == len(s) - p - 1 && (forall k :: 0 <= k && k < p ==> before[k] == s[k]) && (forall k :: 0 <= k && k < len(after) ==> after[k] == s[p + 1 + k])
